@@ -159,6 +159,9 @@ def opSubLoadDict (c : Json) : R Json := do
   return Json.mkObj [("out", subOutJson names (fromDict Rt π fuelDefault base d (optBool c "drop")))]
 
 def subclassOps : List (String × (Json → R Json)) :=
-  [("sub.resolve", opSubResolve), ("sub.load", opSubLoad), ("sub.loaddict", opSubLoadDict)]
+  [("sub.resolve", opSubResolve), ("sub.load", opSubLoad), ("sub.loaddict", opSubLoadDict),
+   -- process history (classes defined after earlier loads): the candidates of a load are all subclasses existing at that
+   -- time, i.e. the load under test is `sub.load` on the whole table
+   ("sub.history", opSubLoad)]
 
 end SpVerif.Drive
